@@ -851,7 +851,10 @@ def run_case(ck, dex, cm, dexasm, case, report=True):
         return (fs[0]["expected"], fs[0]["observed"]) if fs else ("as encoded", "as encoded")
     if op == "print":
         exp = case.get("expected")
-        got = real_print(case["proto"], case["value"])
+        val = case["value"]
+        if case.get("bits") is not None:
+            val = struct.unpack("<f" if case["size"] == 4 else "<d", case["bits"].to_bytes(case["size"], "little"))[0]
+        got = real_print(case["proto"], val)
         ok = got.startswith("ok ") and literal_matches(case["proto"], exp, got[3:])
         if not ok and report:
             ck.fail(case, "printed initialiser does not denote the value", None, exp, got)
@@ -973,6 +976,27 @@ def run(ck: Check):
         if not ok:
             ck.fail({"op": "print", "proto": proto, "value": v, "expected": exp},
                     "printed initialiser does not denote the value", None, exp, real[-1])
+    # non-finite float / double values (modelled); finite ones are read back by the oracle only
+    fl = []
+    for proto, k, size, pats in (("F", "f", 4, [0x7f800000, 0xff800000, 0x7fc00000, 0xffc00000, 0x7f800001, 0x7fffffff]),
+                                 ("D", "d", 8, [0x7ff0000000000000, 0xfff0000000000000, 0x7ff8000000000000,
+                                                0xfff8000000000000, 0x7ff0000000000001, 0xffffffffffffffff]),
+                                 ("D", "f", 4, [0x7f800000, 0x7fc00000]), ("F", "d", 8, [0xfff0000000000000, 0x7ff8000000000001])):
+        for bits in pats:
+            fl.append((proto, k, size, bits, True))
+        for _ in range(20 if not ck.big else 2000):
+            fl.append((proto, k, size, rng.getrandbits(8 * size), False))
+    for proto, k, size, bits, special in fl:
+        v = struct.unpack("<f" if size == 4 else "<d", bits.to_bytes(size, "little"))[0]
+        r = real_print(proto, v)
+        finite = v == v and v not in (math.inf, -math.inf)
+        if not finite:
+            reqs.append("print %s %s %d" % (proto, k, bits)); real.append(r)
+        if (proto, k) in (("F", "f"), ("D", "d")):
+            exp = ("f:" if k == "f" else "d:") + ("nan" if v != v else str(bits))
+            if not (r.startswith("ok ") and literal_matches(proto, exp, r[3:])):
+                ck.fail({"op": "print", "proto": proto, "value": None, "bits": bits, "size": size, "expected": exp},
+                        "printed float initialiser does not denote the value", None, exp, r)
     ck.compare("print", reqs, real, drv.ask(reqs))
     ck.cover(evaluations=len(reqs), distinct=(("print", r) for r in reqs),
              samples=[{"print": reqs[i], "real": real[i]} for i in (0, len(reqs) // 2)])
@@ -1001,8 +1025,13 @@ def run(ck: Check):
                           "evalue stream; for DEX files the resolved items are mapped back to indices through the writer's pools)")
     ck.assumptions.append("Python recursion limit is not modelled (nesting depth of generated values <= 40)")
     ck.assumptions.append("struct.unpack('<f'/'<d') is modelled as the identity on bit patterns; NaNs are compared as 'nan'")
-    ck.partial.append("float/double/String/class-literal initialiser TEXT is not modelled in Lean (repr/unicode-escape); "
-                      "it is read back by the Java-literal oracle only; escaping of String initialisers is not judged (C23)")
+    ck.partial.append("'the decompiler prints the same value' is PROVED for byte, short, char, int, long, boolean, null and "
+                      "non-finite float/double (print_denotes_*, static_init_print). NOT proved: FINITE float/double "
+                      "initialisers (text comes from Python repr, not modelled in Lean; read back by the Java-literal oracle "
+                      "on the real code only) and String initialisers (Python unicode-escape, not modelled; the oracle checks "
+                      "which string is printed, not that the escaping is valid Java: '\\xe9' and an unescaped '\"' are printed "
+                      "and are not valid Java). type/field/method/enum/array/annotation-valued initialisers are printed with "
+                      "Python str() (a descriptor, a list repr, an object repr): they denote no Java value, nothing is claimed.")
 
 
 def replay(ck: Check, rp):
